@@ -141,7 +141,7 @@ pub const META_C02: Meta = Meta {
     ],
     quick_cases: 150000,
     thorough_cases: 2000000,
-    floor: 500,
+    floor: 6000,
 };
 
 pub fn profile_expand() -> GenCfg {
@@ -196,7 +196,7 @@ pub const META_C03: Meta = Meta {
     assumptions: &["unique per-(call,signal) device values make stale or cross-wired values evident"],
     quick_cases: 150000,
     thorough_cases: 2000000,
-    floor: 500,
+    floor: 6000,
 };
 
 pub fn profile_attrib(r: &mut Prng) -> GenCfg {
@@ -312,7 +312,75 @@ pub fn c03_exhaustive(acc: &mut Acc) -> Value {
             }
         }
     }
-    json!({"check_table_pairs": n, "values": vals.len()})
+    // every subset x every permutation of the output-capable signals as device layout, for
+    // 1..=4 output-capable signals (one of them bidirectional when there are >= 2)
+    let mut layouts = 0u64;
+    for n_out in 1..=4usize {
+        let mut sigs = vec![Sig { name: "A".into(), bits: 4, kind: SigKind::In(InVal::V(0)) }];
+        for k in 0..n_out {
+            sigs.insert(
+                if k % 2 == 0 { sigs.len() } else { 0 },
+                Sig {
+                    name: format!("O{k}"),
+                    bits: [64, 8, 1, 13][k],
+                    kind: if k == 1 { SigKind::Bidir(InVal::Z) } else { SigKind::Out },
+                },
+            );
+        }
+        let outs: Vec<usize> = (0..sigs.len()).filter(|&i| sigs[i].is_output()).collect();
+        let header: Vec<String> = sigs
+            .iter()
+            .map(|s| if matches!(s.kind, SigKind::Bidir(_)) { format!("{}_out", s.name) } else { s.name.clone() })
+            .collect();
+        for mask in 0..(1u32 << outs.len()) {
+            let subset: Vec<usize> = outs.iter().enumerate().filter(|(j, _)| mask >> j & 1 == 1).map(|(_, &i)| i).collect();
+            // all permutations (Heap's algorithm, iterative)
+            let mut perm = subset.clone();
+            let mut c = vec![0usize; perm.len()];
+            let mut perms = vec![perm.clone()];
+            let mut i = 0;
+            while i < perm.len() {
+                if c[i] < i {
+                    if i % 2 == 0 {
+                        perm.swap(0, i);
+                    } else {
+                        perm.swap(c[i], i);
+                    }
+                    perms.push(perm.clone());
+                    c[i] += 1;
+                    i = 0;
+                } else {
+                    c[i] = 0;
+                    i += 1;
+                }
+            }
+            for (pi, layout) in perms.into_iter().enumerate() {
+                let row = |id: usize, v: i64| {
+                    Item::Row(
+                        id,
+                        sigs.iter()
+                            .map(|s| if s.is_input() && !matches!(s.kind, SigKind::Bidir(_)) { Entry::Lit(v & 15, Radix::Dec) } else { [Entry::Lit(v, Radix::Dec), Entry::X(false), Entry::Z(false)][(id + s.bits) % 3].clone() })
+                            .collect(),
+                    )
+                };
+                let case = Case {
+                    program: Program { header: header.clone(), items: vec![row(1, 1), row(2, 0), Item::Loop("i".into(), Expr::Num(2, Radix::Dec), vec![row(3, 5)])] },
+                    signals: sigs.clone(),
+                    script: Script {
+                        layout,
+                        values: if pi % 2 == 0 { ValueFn::Unique { salt: mask as u64, narrow: false } } else { ValueFn::Mixed { salt: pi as u64, z: 200, x: 200, edge: 200 } },
+                        faults: vec![],
+                        override_write: pi % 2 == 1,
+                    },
+                    layout_opts: crate::pp::Layout::plain(),
+                    rng_seed: 1,
+                };
+                run_oracles(&case, layouts, "exhaustive-layouts", acc, &[o_accepted, o_attribution, o_outputs], |_, _| true, |_, _, _| {});
+                layouts += 1;
+            }
+        }
+    }
+    json!({"check_table_pairs": n, "values": vals.len(), "all_subset_x_permutation_layouts_for_1..4_outputs": layouts})
 }
 
 // ----------------------------------------------------------------------------------- C04
@@ -324,7 +392,7 @@ pub const META_C04: Meta = Meta {
     assumptions: &["reference interpreter; unique answers make one-call-early / one-call-late reads visible"],
     quick_cases: 150000,
     thorough_cases: 2000000,
-    floor: 500,
+    floor: 8000,
 };
 
 pub fn profile_feedback(r: &mut Prng) -> GenCfg {
@@ -400,7 +468,7 @@ pub const META_C05: Meta = Meta {
     assumptions: &["reference interpreter"],
     quick_cases: 120000,
     thorough_cases: 1500000,
-    floor: 500,
+    floor: 6000,
 };
 
 pub fn c05(case_seed: u64, acc: &mut Acc) {
@@ -531,7 +599,7 @@ pub const META_C06: Meta = Meta {
     assumptions: &["reference interpreter for values; structure is decided from the model's header and signal list only"],
     quick_cases: 150000,
     thorough_cases: 2000000,
-    floor: 500,
+    floor: 8000,
 };
 
 pub fn profile_binding() -> GenCfg {
@@ -616,7 +684,7 @@ pub const META_C14: Meta = Meta {
     assumptions: &["reference interpreter; unique answers distinguish this row's outputs from the previous row's"],
     quick_cases: 150000,
     thorough_cases: 2000000,
-    floor: 300,
+    floor: 6000,
 };
 
 pub fn profile_virtual(r: &mut Prng) -> GenCfg {
@@ -685,7 +753,7 @@ pub const META_C18: Meta = Meta {
     assumptions: &["reference interpreter's frame stack"],
     quick_cases: 150000,
     thorough_cases: 3000000,
-    floor: 500,
+    floor: 5000,
 };
 
 pub fn c18(case_seed: u64, acc: &mut Acc) {
@@ -727,7 +795,7 @@ pub const META_C19: Meta = Meta {
     assumptions: &["reference interpreter decides which source row each yielded row comes from"],
     quick_cases: 120000,
     thorough_cases: 2000000,
-    floor: 500,
+    floor: 3500,
 };
 
 pub fn profile_lines() -> GenCfg {
